@@ -1,6 +1,6 @@
 (* Lemmas about peer selection (Model/Select.v). *)
 From Chihaya Require Import Model.Select.
-From Coq Require Import ZifyBool ZifyNat.
+From Coq Require Import ZifyBool ZifyNat Permutation.
 Open Scope Z_scope.
 
 Lemma ztake_length {A} n (l : list A) : 0 <= n -> zlen (ztake n l) = Z.min n (zlen l).
@@ -16,4 +16,582 @@ Proof.
     fold (zlen (ztake (nw - zlen (ztake nw S)) (kremove ann L))).
     rewrite (ztake_length nw S) by lia.
     rewrite ztake_length by lia. lia.
+Qed.
+
+(* ------------------------------------------------------------------ *)
+(* 1. bytes_eqb is an equality test; kmem / kcount / kremove / kdedup  *)
+
+Definition bytes_dec : forall a b : bytes, {a = b} + {a <> b} := list_eq_dec Z.eq_dec.
+
+Lemma bytes_eqb_spec a b : reflect (a = b) (bytes_eqb a b).
+Proof. apply iff_reflect. symmetry. apply bytes_eqb_eq. Qed.
+
+Lemma bytes_eqb_neq a b : bytes_eqb a b = false <-> a <> b.
+Proof. destruct (bytes_eqb_spec a b) as [E|E]; split; intros H; congruence. Qed.
+
+Lemma bytes_eqb_sym a b : bytes_eqb a b = bytes_eqb b a.
+Proof. destruct (bytes_eqb_spec a b) as [E|E], (bytes_eqb_spec b a) as [E'|E']; congruence. Qed.
+
+Lemma kmem_In k l : kmem k l = true <-> In k l.
+Proof.
+  unfold kmem. rewrite existsb_exists. split.
+  - intros [x [Hx He]]. apply bytes_eqb_eq in He. subst x. exact Hx.
+  - intros H. exists k. split; [exact H | apply bytes_eqb_refl].
+Qed.
+
+Lemma kmem_not_In k l : kmem k l = false <-> ~ In k l.
+Proof. rewrite <- kmem_In. destruct (kmem k l); split; congruence. Qed.
+
+Lemma kmem_spec k l : reflect (In k l) (kmem k l).
+Proof. apply iff_reflect. symmetry. apply kmem_In. Qed.
+
+Lemma zlen_nonneg {A} (l : list A) : 0 <= zlen l.
+Proof. unfold zlen. lia. Qed.
+
+Lemma zlen_nil {A} : zlen (@nil A) = 0.
+Proof. reflexivity. Qed.
+
+Lemma zlen_cons {A} (x : A) l : zlen (x :: l) = 1 + zlen l.
+Proof. unfold zlen. cbn [length]. lia. Qed.
+
+Lemma zlen_app {A} (a b : list A) : zlen (a ++ b) = zlen a + zlen b.
+Proof. unfold zlen. rewrite app_length. lia. Qed.
+
+Lemma zlen_zero_nil {A} (l : list A) : zlen l = 0 -> l = [].
+Proof. destruct l as [|x l]; [reflexivity|]. rewrite zlen_cons. pose proof (zlen_nonneg l). lia. Qed.
+
+Lemma b2z_range b : 0 <= b2z b <= 1.
+Proof. destruct b; cbn [b2z]; lia. Qed.
+
+Lemma kcount_nil k : kcount k [] = 0.
+Proof. reflexivity. Qed.
+
+Lemma kcount_cons k x l : kcount k (x :: l) = b2z (bytes_eqb k x) + kcount k l.
+Proof.
+  unfold kcount. cbn [filter]. destruct (bytes_eqb k x); cbn [b2z length]; lia.
+Qed.
+
+Lemma kcount_app k a b : kcount k (a ++ b) = kcount k a + kcount k b.
+Proof. unfold kcount. rewrite filter_app, app_length. lia. Qed.
+
+Lemma kcount_nonneg k l : 0 <= kcount k l.
+Proof. unfold kcount. lia. Qed.
+
+Lemma kcount_count_occ k l : kcount k l = Z.of_nat (count_occ bytes_dec l k).
+Proof.
+  induction l as [|x l IH]; [reflexivity|].
+  rewrite kcount_cons, IH. cbn [count_occ].
+  destruct (bytes_eqb_spec k x) as [E|E], (bytes_dec x k) as [E'|E'];
+    try congruence; cbn [b2z]; lia.
+Qed.
+
+Lemma kcount_pos_In k l : 0 < kcount k l <-> In k l.
+Proof. rewrite kcount_count_occ, (count_occ_In bytes_dec). lia. Qed.
+
+Lemma kcount_not_In k l : ~ In k l -> kcount k l = 0.
+Proof. intros H. apply (count_occ_not_In bytes_dec) in H. rewrite kcount_count_occ. lia. Qed.
+
+Lemma kcount_zero_not_In k l : kcount k l = 0 -> ~ In k l.
+Proof. intros H Hin. apply kcount_pos_In in Hin. lia. Qed.
+
+Lemma kcount_NoDup_b2z k l : NoDup l -> kcount k l = b2z (kmem k l).
+Proof.
+  intros Hnd. induction Hnd as [|x l Hx Hnd IH]; [reflexivity|].
+  rewrite kcount_cons, IH. unfold kmem. cbn [existsb]. fold (kmem k l).
+  destruct (bytes_eqb_spec k x) as [E|E]; cbn [orb b2z]; [|lia].
+  subst x. apply kmem_not_In in Hx. rewrite Hx. reflexivity.
+Qed.
+
+Lemma kcount_NoDup_In k l : NoDup l -> In k l -> kcount k l = 1.
+Proof.
+  intros Hnd Hin. rewrite kcount_NoDup_b2z by exact Hnd.
+  apply kmem_In in Hin. rewrite Hin. reflexivity.
+Qed.
+
+Lemma kcount_perm k a b : Permutation a b -> kcount k a = kcount k b.
+Proof.
+  intros HP. rewrite !kcount_count_occ. f_equal.
+  apply (Permutation_count_occ bytes_dec). exact HP.
+Qed.
+
+Lemma perm_of_kcount a b : (forall k, kcount k a = kcount k b) -> Permutation a b.
+Proof.
+  intros H. apply (Permutation_count_occ bytes_dec). intros k.
+  specialize (H k). rewrite !kcount_count_occ in H. lia.
+Qed.
+
+Lemma NoDup_of_kcount l : (forall k, kcount k l <= 1) -> NoDup l.
+Proof.
+  intros H. apply (NoDup_count_occ bytes_dec). intros k.
+  specialize (H k). rewrite kcount_count_occ in H. lia.
+Qed.
+
+Lemma kcount_filter p l k : kcount k (filter p l) = if p k then kcount k l else 0.
+Proof.
+  destruct (p k) eqn:Hp.
+  - induction l as [|x l IH]; cbn [filter]; [reflexivity|].
+    destruct (bytes_eqb_spec k x) as [E|E].
+    + subst x. rewrite Hp, !kcount_cons, IH. reflexivity.
+    + apply bytes_eqb_neq in E.
+      destruct (p x); rewrite ?kcount_cons, IH; [reflexivity|].
+      rewrite E. cbn [b2z]. lia.
+  - induction l as [|x l IH]; cbn [filter]; [reflexivity|].
+    destruct (bytes_eqb_spec k x) as [E|E].
+    + subst x. rewrite Hp, IH. reflexivity.
+    + apply bytes_eqb_neq in E.
+      destruct (p x); rewrite ?kcount_cons, IH; [|reflexivity].
+      rewrite E. reflexivity.
+Qed.
+
+Lemma kremove_In k a l : In k (kremove a l) <-> In k l /\ k <> a.
+Proof.
+  unfold kremove. rewrite filter_In. rewrite negb_true_iff, bytes_eqb_neq.
+  split; intros [H1 H2]; split; auto.
+Qed.
+
+Lemma kremove_NoDup a l : NoDup l -> NoDup (kremove a l).
+Proof. apply NoDup_filter. Qed.
+
+Lemma kremove_incl a l : incl (kremove a l) l.
+Proof. apply incl_filter. Qed.
+
+Lemma kdedup_In k l : In k (kdedup l) <-> In k l.
+Proof.
+  induction l as [|x l IH]; cbn [kdedup]; [tauto|].
+  destruct (kmem_spec x l) as [Hx|Hx]; cbn [In]; rewrite IH; [|tauto].
+  split; [tauto|]. intros [E|H]; [subst x; exact Hx | exact H].
+Qed.
+
+Lemma kdedup_NoDup l : NoDup (kdedup l).
+Proof.
+  induction l as [|x l IH]; cbn [kdedup]; [constructor|].
+  destruct (kmem_spec x l) as [Hx|Hx]; [exact IH|].
+  constructor; [|exact IH]. rewrite kdedup_In. exact Hx.
+Qed.
+
+Lemma kcount_kdedup k l : kcount k (kdedup l) = b2z (kmem k l).
+Proof.
+  rewrite kcount_NoDup_b2z by apply kdedup_NoDup. f_equal.
+  destruct (kmem_spec k (kdedup l)) as [H|H], (kmem_spec k l) as [H'|H'];
+    try reflexivity; rewrite kdedup_In in H; tauto.
+Qed.
+
+Lemma NoDup_firstn {A} n (l : list A) : NoDup l -> NoDup (firstn n l).
+Proof.
+  intros H. revert n. induction H as [|x l Hx Hnd IH]; intros [|n]; cbn [firstn]; try constructor.
+  - intros Hin. apply Hx. eapply In_firstn_in. exact Hin.
+  - apply IH.
+Qed.
+
+Lemma incl_firstn {A} n (l : list A) : incl (firstn n l) l.
+Proof. intros x Hx. eapply In_firstn_in. exact Hx. Qed.
+
+(* sums of an integer weight over a list: cardinalities of filters are sums of
+   indicators, so relations between cardinalities follow pointwise *)
+Fixpoint sumf (f : bytes -> Z) (l : list bytes) : Z :=
+  match l with [] => 0 | x :: r => f x + sumf f r end.
+
+Lemma sumf_le f g l : (forall x, In x l -> f x <= g x) -> sumf f l <= sumf g l.
+Proof.
+  induction l as [|x l IH]; intros H; cbn [sumf]; [lia|].
+  pose proof (H x (or_introl eq_refl)) as Hx.
+  assert (Hl : sumf f l <= sumf g l) by (apply IH; intros y Hy; apply H; right; exact Hy).
+  lia.
+Qed.
+
+Lemma sumf_eq f g l : (forall x, In x l -> f x = g x) -> sumf f l = sumf g l.
+Proof.
+  intros H. apply Z.le_antisymm; apply sumf_le; intros x Hx; rewrite (H x Hx); lia.
+Qed.
+
+Lemma sumf_plus f g l : sumf (fun x => f x + g x) l = sumf f l + sumf g l.
+Proof. induction l as [|x l IH]; cbn [sumf]; lia. Qed.
+
+Lemma zlen_filter_sumf p l : zlen (filter p l) = sumf (fun x => b2z (p x)) l.
+Proof.
+  induction l as [|x l IH]; cbn [filter sumf]; [reflexivity|].
+  destruct (p x); [rewrite zlen_cons|]; rewrite IH; cbn [b2z]; lia.
+Qed.
+
+Lemma filter_filter_and (p q : bytes -> bool) l :
+  filter q (filter p l) = filter (fun x => p x && q x) l.
+Proof.
+  induction l as [|x l IH]; cbn [filter]; [reflexivity|].
+  destruct (p x); cbn [filter andb]; [destruct (q x)|]; rewrite IH; reflexivity.
+Qed.
+
+(* a duplicate-free sublist is as long as its characteristic filter *)
+Lemma zlen_NoDup_sub r d :
+  NoDup r -> NoDup d -> incl r d -> zlen r = zlen (filter (fun k => kmem k r) d).
+Proof.
+  intros Hr Hd Hi. unfold zlen. f_equal. apply Permutation_length.
+  apply NoDup_Permutation; [exact Hr | apply NoDup_filter; exact Hd |].
+  intros x. rewrite filter_In, kmem_In. split; [|tauto].
+  intros Hx. split; [apply Hi|]; exact Hx.
+Qed.
+
+Ltac blia := change b2z with Z.b2z in *; lia.
+
+(* ------------------------------------------------------------------ *)
+(* 3. the declarative specification of an allowed selection.
+
+   In the words of property C02: the answer [res] is, up to order, a list [rs]
+   of distinct seeders followed by a list [rl] of distinct leechers such that
+   - every entry is a current member of the swarm (rs from S, rl from L);
+   - a seeder gets only leechers (its seeder pool is empty, so rs = []);
+   - a leecher never gets its own leecher entry (its leecher pool is L
+     without the announcer's key);
+   - seeders come before leechers and the swarm offers as many as it can:
+     rs has min(numwant, #seeder pool) entries and only the remaining
+     numwant - #rs slots are filled from the leecher pool, again as many as
+     it has; hence at most numwant entries in total.
+   A key listed in both roles may appear once in rs and once in rl. *)
+Definition selection_spec (S L : list bytes) (ann : bytes) (seeder : bool) (nw : Z)
+    (res : list bytes) : Prop :=
+  exists rs rl, Permutation res (rs ++ rl) /\ NoDup rs /\ NoDup rl /\
+    incl rs (pool_s S seeder) /\ incl rl (pool_l L ann seeder) /\
+    zlen rs = quota_s S seeder nw /\ zlen rl = quota_l S L ann seeder nw.
+
+(* the code's result, for any iteration order of its two maps, is allowed *)
+Lemma select_ref_spec S L ann seeder nw :
+  NoDup S -> NoDup L -> 0 <= nw ->
+  selection_spec S L ann seeder nw (select_ref S L ann seeder nw).
+Proof.
+  intros HS HL Hn. unfold selection_spec, select_ref, quota_l, quota_s, pool_s, pool_l.
+  destruct seeder.
+  - exists [], (ztake nw L). cbn [app]. repeat split.
+    + apply Permutation_refl.
+    + constructor.
+    + apply NoDup_firstn; exact HL.
+    + apply incl_nil_l.
+    + apply incl_firstn.
+    + rewrite zlen_nil. lia.
+    + rewrite ztake_length by lia. rewrite zlen_nil. lia.
+  - exists (ztake nw S), (ztake (nw - zlen (ztake nw S)) (kremove ann L)). repeat split.
+    + apply Permutation_refl.
+    + apply NoDup_firstn; exact HS.
+    + apply NoDup_firstn, kremove_NoDup; exact HL.
+    + apply incl_firstn.
+    + apply incl_firstn.
+    + apply ztake_length; exact Hn.
+    + rewrite (ztake_length nw S) by lia. rewrite ztake_length by lia. reflexivity.
+Qed.
+
+(* counting core of completeness, over abstract multiplicity / pool tests *)
+Lemma split_count_complete (d : list bytes) (c : bytes -> Z) (s l r1 r2 : bytes -> bool) :
+  (forall k, In k d -> c k = b2z (r1 k) + b2z (r2 k) /\ 0 < c k /\
+                       (r1 k = true -> s k = true) /\ (r2 k = true -> l k = true)) ->
+  let T := zlen (filter (fun k => c k =? 2) d) in
+  let O := filter (fun k => c k =? 1) d in
+  let Os := zlen (filter (fun k => s k && negb (l k)) O) in
+  let Ol := zlen (filter (fun k => negb (s k) && l k) O) in
+  let F := zlen (filter (fun k => s k && l k) O) in
+  let a := zlen (filter r1 d) in
+  let b := zlen (filter r2 d) in
+  T + Os <= a /\ a <= T + Os + F /\ T + Os + T + Ol + F = a + b.
+Proof.
+  intros Hpt. cbv zeta. rewrite !filter_filter_and, !zlen_filter_sumf.
+  assert (A1 : sumf (fun x => b2z (c x =? 2) + b2z ((c x =? 1) && (s x && negb (l x)))) d
+               <= sumf (fun x => b2z (r1 x)) d).
+  { apply sumf_le. intros k Hk. cbv beta. destruct (Hpt k Hk) as (H1 & H2 & H3 & H4). blia. }
+  assert (A2 : sumf (fun x => b2z (r1 x)) d
+               <= sumf (fun x => (b2z (c x =? 2) + b2z ((c x =? 1) && (s x && negb (l x))))
+                                  + b2z ((c x =? 1) && (s x && l x))) d).
+  { apply sumf_le. intros k Hk. cbv beta. destruct (Hpt k Hk) as (H1 & H2 & H3 & H4). blia. }
+  assert (A3 : sumf (fun x => ((((b2z (c x =? 2) + b2z ((c x =? 1) && (s x && negb (l x))))
+                                  + b2z (c x =? 2)) + b2z ((c x =? 1) && (negb (s x) && l x)))
+                                  + b2z ((c x =? 1) && (s x && l x)))) d
+               = sumf (fun x => b2z (r1 x) + b2z (r2 x)) d).
+  { apply sumf_eq. intros k Hk. cbv beta. destruct (Hpt k Hk) as (H1 & H2 & H3 & H4). blia. }
+  repeat rewrite sumf_plus in A1. repeat rewrite sumf_plus in A2.
+  repeat rewrite sumf_plus in A3. lia.
+Qed.
+
+Lemma ok_selection_complete S L ann seeder nw res :
+  NoDup S -> NoDup L -> 0 <= nw ->
+  selection_spec S L ann seeder nw res -> ok_selection S L ann seeder nw res = true.
+Proof.
+  intros HS HL Hn (rs & rl & HP & Hrs & Hrl & Hirs & Hirl & Hzs & Hzl).
+  assert (Hcnt : forall k, kcount k res = b2z (kmem k rs) + b2z (kmem k rl)).
+  { intros k. rewrite (kcount_perm k _ _ HP), kcount_app, !kcount_NoDup_b2z by assumption.
+    reflexivity. }
+  assert (Hps : forall k, kmem k rs = true -> kmem k (pool_s S seeder) = true).
+  { intros k H. apply kmem_In, Hirs, kmem_In, H. }
+  assert (Hpl : forall k, kmem k rl = true -> kmem k (pool_l L ann seeder) = true).
+  { intros k H. apply kmem_In, Hirl, kmem_In, H. }
+  assert (HplL : forall k, kmem k (pool_l L ann seeder) = true -> kmem k L = true).
+  { unfold pool_l. destruct seeder; [auto|]. intros k H. apply kmem_In.
+    apply kmem_In, kremove_In in H. tauto. }
+  assert (Hlen : zlen res = zlen rs + zlen rl).
+  { rewrite <- zlen_app. unfold zlen. f_equal. apply Permutation_length. exact HP. }
+  unfold ok_selection. rewrite !andb_true_iff. repeat split.
+  - (* at most numwant *)
+    unfold sel_size_ok. rewrite Hlen, Hzs, Hzl. unfold quota_l. lia.
+  - (* members *)
+    unfold sel_members_ok. apply forallb_forall. intros k Hk.
+    pose proof (Hcnt k) as H1. pose proof (Hps k) as H2. pose proof (Hpl k) as H3.
+    pose proof (HplL k) as H4. blia.
+  - (* never the announcer's own leecher entry *)
+    unfold sel_no_self. destruct seeder; [reflexivity|]. cbn [orb].
+    pose proof (Hcnt ann) as H1. pose proof (Hps ann) as H2. cbn [pool_s] in H2.
+    assert (H3 : kmem ann rl = false).
+    { apply kmem_not_In. intros H. apply Hirl in H. cbn [pool_l] in H.
+      apply kremove_In in H. tauto. }
+    blia.
+  - (* quotas *)
+    unfold sel_split_ok. cbv zeta. rewrite !andb_true_iff.
+    set (d := kdedup res).
+    assert (Hd : NoDup d) by apply kdedup_NoDup.
+    assert (Hrsd : incl rs d).
+    { intros k Hk. apply kdedup_In. eapply Permutation_in; [symmetry; exact HP|].
+      apply in_or_app; left; exact Hk. }
+    assert (Hrld : incl rl d).
+    { intros k Hk. apply kdedup_In. eapply Permutation_in; [symmetry; exact HP|].
+      apply in_or_app; right; exact Hk. }
+    rewrite <- Hzs, <- Hzl.
+    rewrite (zlen_NoDup_sub rs d Hrs Hd Hrsd), (zlen_NoDup_sub rl d Hrl Hd Hrld).
+    assert (Hpt : forall k, In k d ->
+              kcount k res = b2z (kmem k rs) + b2z (kmem k rl) /\ 0 < kcount k res /\
+              (kmem k rs = true -> kmem k (pool_s S seeder) = true) /\
+              (kmem k rl = true -> kmem k (pool_l L ann seeder) = true)).
+    { intros k Hk.
+      assert (Hk' : 0 < kcount k res) by (apply kcount_pos_In, kdedup_In; exact Hk).
+      repeat split; auto. }
+    pose proof (split_count_complete d (fun k => kcount k res)
+      (fun k => kmem k (pool_s S seeder)) (fun k => kmem k (pool_l L ann seeder))
+      (fun k => kmem k rs) (fun k => kmem k rl) Hpt) as Hsc.
+    cbv zeta beta in Hsc.
+    destruct Hsc as (A1 & A2 & A3).
+    repeat split; try lia.
+    apply forallb_forall. intros k Hk.
+    pose proof (Hcnt k) as H1. pose proof (Hps k) as H2. pose proof (Hpl k) as H3. blia.
+Qed.
+
+(* 2. headline: the reference function passes every clause of the checker *)
+Lemma select_ref_ok S L ann seeder nw :
+  NoDup S -> NoDup L -> 0 <= nw ->
+  ok_selection S L ann seeder nw (select_ref S L ann seeder nw) = true.
+Proof.
+  intros HS HL Hn. apply ok_selection_complete; try assumption.
+  apply select_ref_spec; assumption.
+Qed.
+
+Lemma zlen_firstn {A} n (l : list A) : zlen (firstn n l) = Z.min (Z.of_nat n) (zlen l).
+Proof. unfold zlen. rewrite firstn_length. lia. Qed.
+
+Lemma zlen_skipn {A} n (l : list A) : zlen (skipn n l) = Z.max 0 (zlen l - Z.of_nat n).
+Proof. unfold zlen. rewrite skipn_length. lia. Qed.
+
+Lemma kcount_filter_b p l k r :
+  kcount k l = b2z r -> kcount k (filter p l) = b2z (p k && r).
+Proof. intros H. rewrite kcount_filter, H. destruct (p k), r; reflexivity. Qed.
+
+(* soundness: whatever the checker accepts is an allowed selection *)
+Lemma ok_selection_sound S L ann seeder nw res :
+  NoDup S -> NoDup L -> 0 <= nw ->
+  ok_selection S L ann seeder nw res = true -> selection_spec S L ann seeder nw res.
+Proof.
+  intros HS HL Hn H. unfold ok_selection in H. rewrite !andb_true_iff in H.
+  destruct H as (((Hsz & Hmem) & Hself) & Hsplit).
+  unfold sel_split_ok in Hsplit. cbv zeta in Hsplit. rewrite !andb_true_iff in Hsplit.
+  destruct Hsplit as (((H1 & H2) & H3) & H4).
+  rewrite forallb_forall in H4.
+  unfold selection_spec.
+  set (ps := pool_s S seeder) in *. set (pl := pool_l L ann seeder) in *.
+  set (a := quota_s S seeder nw) in *. set (b := quota_l S L ann seeder nw) in *.
+  set (d := kdedup res) in *.
+  set (T := filter (fun k => kcount k res =? 2) d) in *.
+  set (O := filter (fun k => kcount k res =? 1) d) in *.
+  set (Os := filter (fun k => kmem k ps && negb (kmem k pl)) O) in *.
+  set (Ol := filter (fun k => negb (kmem k ps) && kmem k pl) O) in *.
+  set (F := filter (fun k => kmem k ps && kmem k pl) O) in *.
+  set (m := Z.to_nat (a - zlen T - zlen Os)).
+  assert (Hpt : forall k,
+    kcount k T = b2z ((kcount k res =? 2) && kmem k res) /\
+    kcount k Os = b2z ((kmem k ps && negb (kmem k pl)) && ((kcount k res =? 1) && kmem k res)) /\
+    kcount k Ol = b2z ((negb (kmem k ps) && kmem k pl) && ((kcount k res =? 1) && kmem k res)) /\
+    kcount k F = b2z ((kmem k ps && kmem k pl) && ((kcount k res =? 1) && kmem k res)) /\
+    0 <= kcount k (firstn m F) /\ 0 <= kcount k (skipn m F) /\
+    kcount k (firstn m F) + kcount k (skipn m F) = kcount k F /\
+    (kmem k res = true -> 1 <= kcount k res <= b2z (kmem k ps) + b2z (kmem k pl)) /\
+    (kmem k res = false -> kcount k res = 0)).
+  { intros k.
+    assert (Hd : kcount k d = b2z (kmem k res)) by apply kcount_kdedup.
+    assert (HO : kcount k O = b2z ((kcount k res =? 1) && kmem k res)).
+    { unfold O. apply (kcount_filter_b (fun k => kcount k res =? 1)). exact Hd. }
+    split; [unfold T; apply (kcount_filter_b (fun k => kcount k res =? 2)); exact Hd|].
+    split; [unfold Os; apply (kcount_filter_b (fun k => kmem k ps && negb (kmem k pl))); exact HO|].
+    split; [unfold Ol; apply (kcount_filter_b (fun k => negb (kmem k ps) && kmem k pl)); exact HO|].
+    split; [unfold F; apply (kcount_filter_b (fun k => kmem k ps && kmem k pl)); exact HO|].
+    split; [apply kcount_nonneg|]. split; [apply kcount_nonneg|].
+    split; [rewrite <- kcount_app, firstn_skipn; reflexivity|].
+    split.
+    - intros Hr. apply kmem_In in Hr. pose proof (H4 k Hr) as H5.
+      apply kcount_pos_In in Hr. lia.
+    - intros Hr. apply kmem_not_In in Hr. apply kcount_not_In. exact Hr. }
+  exists (T ++ Os ++ firstn m F), (T ++ Ol ++ skipn m F).
+  split; [|split; [|split; [|split; [|split; [|split]]]]].
+  - apply perm_of_kcount. intros k. rewrite !kcount_app.
+    destruct (Hpt k) as (E1 & E2 & E3 & E4 & E5 & E6 & E7 & E8 & E9). blia.
+  - apply NoDup_of_kcount. intros k. rewrite !kcount_app.
+    destruct (Hpt k) as (E1 & E2 & E3 & E4 & E5 & E6 & E7 & E8 & E9). blia.
+  - apply NoDup_of_kcount. intros k. rewrite !kcount_app.
+    destruct (Hpt k) as (E1 & E2 & E3 & E4 & E5 & E6 & E7 & E8 & E9). blia.
+  - intros k Hk. apply kcount_pos_In in Hk. rewrite !kcount_app in Hk. apply kmem_In.
+    destruct (Hpt k) as (E1 & E2 & E3 & E4 & E5 & E6 & E7 & E8 & E9). blia.
+  - intros k Hk. apply kcount_pos_In in Hk. rewrite !kcount_app in Hk. apply kmem_In.
+    destruct (Hpt k) as (E1 & E2 & E3 & E4 & E5 & E6 & E7 & E8 & E9). blia.
+  - rewrite !zlen_app, zlen_firstn. pose proof (zlen_nonneg F). lia.
+  - rewrite !zlen_app, zlen_skipn. pose proof (zlen_nonneg F). lia.
+Qed.
+
+(* checker <-> specification *)
+Lemma ok_selection_iff S L ann seeder nw res :
+  NoDup S -> NoDup L -> 0 <= nw ->
+  (ok_selection S L ann seeder nw res = true <-> selection_spec S L ann seeder nw res).
+Proof.
+  intros HS HL Hn. split.
+  - apply ok_selection_sound; assumption.
+  - apply ok_selection_complete; assumption.
+Qed.
+
+(* ------------------------------------------------------------------ *)
+(* 4. the clauses of the property, read off the specification          *)
+
+Lemma selection_spec_length S L ann seeder nw res :
+  selection_spec S L ann seeder nw res ->
+  zlen res = quota_s S seeder nw + quota_l S L ann seeder nw.
+Proof.
+  intros (rs & rl & HP & _ & _ & _ & _ & Hzs & Hzl).
+  rewrite <- Hzs, <- Hzl, <- zlen_app. unfold zlen. f_equal.
+  apply Permutation_length. exact HP.
+Qed.
+
+(* at most numwant *)
+Lemma selection_size S L ann seeder nw res :
+  selection_spec S L ann seeder nw res -> zlen res <= nw.
+Proof.
+  intros H. rewrite (selection_spec_length _ _ _ _ _ _ H). unfold quota_l. lia.
+Qed.
+
+(* every returned key is a current member of the swarm *)
+Lemma selection_members S L ann seeder nw res :
+  selection_spec S L ann seeder nw res -> forall k, In k res -> In k S \/ In k L.
+Proof.
+  intros (rs & rl & HP & _ & _ & Hirs & Hirl & _ & _) k Hk.
+  apply (Permutation_in _ HP), in_app_or in Hk. destruct Hk as [Hk|Hk].
+  - apply Hirs in Hk. unfold pool_s in Hk. destruct seeder; [destruct Hk | left; exact Hk].
+  - apply Hirl in Hk. unfold pool_l in Hk. destruct seeder; [right; exact Hk|].
+    apply kremove_In in Hk. right. tauto.
+Qed.
+
+(* a leecher never receives its own leecher entry *)
+Lemma selection_no_own_leecher_entry S L ann seeder nw res :
+  seeder = false -> ~ In ann S -> selection_spec S L ann seeder nw res -> ~ In ann res.
+Proof.
+  intros -> HnS (rs & rl & HP & _ & _ & Hirs & Hirl & _ & _) Hk.
+  apply (Permutation_in _ HP), in_app_or in Hk. destruct Hk as [Hk|Hk].
+  - apply Hirs in Hk. cbn [pool_s] in Hk. tauto.
+  - apply Hirl in Hk. cbn [pool_l] in Hk. apply kremove_In in Hk. tauto.
+Qed.
+
+(* more precisely: the announcer's key occurs at most once, and only as a seeder entry *)
+Lemma selection_own_key_count S L ann nw res :
+  selection_spec S L ann false nw res -> kcount ann res <= b2z (kmem ann S).
+Proof.
+  intros (rs & rl & HP & Hrs & Hrl & Hirs & Hirl & _ & _).
+  rewrite (kcount_perm _ _ _ HP), kcount_app, !kcount_NoDup_b2z by assumption.
+  assert (H1 : kmem ann rl = false).
+  { apply kmem_not_In. intros H. apply Hirl in H. cbn [pool_l] in H.
+    apply kremove_In in H. tauto. }
+  assert (H2 : kmem ann rs = true -> kmem ann S = true).
+  { intros H. apply kmem_In, Hirs, kmem_In, H. }
+  blia.
+Qed.
+
+(* a seeder is offered only leechers *)
+Lemma selection_seeder_gets_leechers S L ann seeder nw res :
+  seeder = true -> selection_spec S L ann seeder nw res -> incl res L.
+Proof.
+  intros -> (rs & rl & HP & _ & _ & Hirs & Hirl & _ & _) k Hk.
+  apply (Permutation_in _ HP), in_app_or in Hk. destruct Hk as [Hk|Hk].
+  - apply Hirs in Hk. destruct Hk.
+  - apply Hirl in Hk. exact Hk.
+Qed.
+
+(* seeders before leechers: if the limit was not reached, every seeder was offered *)
+Lemma selection_seeders_first S L ann seeder nw res :
+  seeder = false -> selection_spec S L ann seeder nw res -> zlen res < nw ->
+  forall k, In k S -> In k res.
+Proof.
+  intros -> Hspec Hlt k Hk.
+  pose proof (selection_spec_length _ _ _ _ _ _ Hspec) as Hlen.
+  destruct Hspec as (rs & rl & HP & Hrs & _ & Hirs & _ & Hzs & Hzl).
+  cbn [pool_s] in Hirs.
+  assert (Hq : zlen rs = zlen S).
+  { rewrite Hzs. unfold quota_l, quota_s in *. cbn [pool_s] in *.
+    pose proof (zlen_nonneg (pool_l L ann false)). lia. }
+  assert (Hincl : incl S rs).
+  { apply NoDup_length_incl; [exact Hrs | unfold zlen in Hq; lia | exact Hirs]. }
+  apply (Permutation_in _ (Permutation_sym HP)), in_or_app. left. apply Hincl, Hk.
+Qed.
+
+(* and then every other leecher as well, as far as numwant allows: the
+   selection always has min(numwant, everything on offer) entries *)
+Lemma selection_full S L ann seeder nw res :
+  selection_spec S L ann seeder nw res ->
+  zlen res = Z.min nw (zlen (pool_s S seeder) + zlen (pool_l L ann seeder)).
+Proof.
+  intros H. rewrite (selection_spec_length _ _ _ _ _ _ H). unfold quota_l, quota_s.
+  pose proof (zlen_nonneg (pool_s S seeder)). pose proof (zlen_nonneg (pool_l L ann seeder)).
+  lia.
+Qed.
+
+(* the selection is empty exactly when nothing was asked for or nothing is on offer *)
+Lemma empty_selection_iff S L ann seeder nw :
+  0 <= nw ->
+  (selection_spec S L ann seeder nw [] <->
+   (nw = 0 \/ (pool_s S seeder = [] /\ pool_l L ann seeder = []))).
+Proof.
+  intros Hn. split.
+  - intros H. apply selection_full in H. rewrite zlen_nil in H.
+    pose proof (zlen_nonneg (pool_s S seeder)) as Hs.
+    pose proof (zlen_nonneg (pool_l L ann seeder)) as Hl.
+    destruct (Z.eq_dec nw 0) as [E|E]; [left; exact E | right].
+    split; apply zlen_zero_nil; lia.
+  - intros H. exists [], []. cbn [app].
+    split; [apply Permutation_refl|]. split; [constructor|]. split; [constructor|].
+    split; [apply incl_nil_l|]. split; [apply incl_nil_l|].
+    rewrite zlen_nil. unfold quota_l, quota_s.
+    pose proof (zlen_nonneg (pool_s S seeder)) as Hs.
+    pose proof (zlen_nonneg (pool_l L ann seeder)) as Hl.
+    destruct H as [E|[E1 E2]].
+    + subst nw. lia.
+    + rewrite E1, E2. unfold zlen. cbn [length]. lia.
+Qed.
+
+(* ------------------------------------------------------------------ *)
+(* 5. the hypotheses are satisfiable; the checker accepts a reordering of the
+      reference answer and rejects an answer containing the announcer.
+      Keys: S = {1,2}, L = {2,3,4} (key 2 listed in both roles), announcer 3. *)
+Ltac nodup_tac :=
+  repeat (apply NoDup_cons;
+          [cbn [In]; intros HH; repeat (destruct HH as [HH|HH]; [discriminate HH|]); exact HH|]);
+  apply NoDup_nil.
+
+Example select_example :
+  let S := [[1]; [2]] in let L := [[2]; [3]; [4]] in let ann := [3] in
+  NoDup S /\ NoDup L /\ In ann L /\
+  select_ref S L ann false 3 = [[1]; [2]; [2]] /\
+  ok_selection S L ann false 3 [[2]; [1]; [2]] = true /\
+  ok_selection S L ann false 3 [[2]; [4]; [1]] = true /\
+  ok_selection S L ann false 3 [[1]; [2]; [3]] = false /\
+  ok_selection S L ann false 3 [[1]; [4]; [2]; [2]] = false /\
+  ok_selection S L ann false 3 [[4]; [2]; [2]] = false /\
+  ok_selection S L ann true 3 [[4]; [3]; [2]] = true.
+Proof.
+  cbv zeta. repeat split; try (vm_compute; reflexivity).
+  - nodup_tac.
+  - nodup_tac.
+  - cbn [In]. tauto.
 Qed.
